@@ -22,6 +22,7 @@ THEOREMS = [
     "Typedpy.C07.strict_mapping_no_capture_example",
     "Typedpy.C07.dns_blocks_deserialize_counterexample",
     "Typedpy.C07.nested_resync_counterexample",
+    "Typedpy.C07.C07_statement_false",
     "Typedpy.C07.round_trip_example",
 ]
 RULE = ("class hierarchies (1-3 levels of single inheritance, fresh classes per case) with 1-7 Integer / nested "
@@ -43,7 +44,7 @@ ASSUMPTIONS = [
 
 
 def cases(rng, tier):
-    return S.gen_cases(rng, tier, 330 if tier == "quick" else 6000)
+    return S.gen_cases(rng, tier, 2000 if tier == "quick" else 36000)
 
 
 def search_cases(rng, tier):
